@@ -39,7 +39,7 @@ def _payload(df, skip):
     (all other columns, bit-exact): restructuring must move it with the row and never change it"""
     import hashlib
     from harness.drive import _canon
-    cols = [c for c in df.columns if c not in skip]
+    cols = [c for c in df.columns if c not in skip and c != "old_index"]     # old_index: documented effect of store_old_index
     out = []
     for vals in (df[cols].values.tolist() if cols else [[] for _ in range(len(df))]):
         h = hashlib.sha1(repr([_canon(v) for v in vals]).encode()).hexdigest()
@@ -170,9 +170,10 @@ def apply_op(op, net):
     elif k == "reindex_elements":
         t.reindex_elements(net, op["element"], dict(op["lookup"]))
     elif k == "create_continuous_junction_index":
-        t.create_continuous_junction_index(net, start=op["start"])
+        t.create_continuous_junction_index(net, start=op["start"], store_old_index=op.get("store_old_index", False))
     elif k == "create_continuous_element_index":
-        t.create_continuous_element_index(net, op["element"], start=op["start"])
+        t.create_continuous_element_index(net, op["element"], start=op["start"],
+                                          store_old_index=op.get("store_old_index", False))
     elif k == "create_continuous_elements_index":
         # record which tables the code reindexes, in its own (set) order: input of the model
         seen = []
@@ -184,14 +185,17 @@ def apply_op(op, net):
             return orig(net_, element, *a, **kw)
         t.create_continuous_element_index = rec
         try:
-            t.create_continuous_elements_index(net, start=op["start"])
+            t.create_continuous_elements_index(net, start=op["start"], store_old_index=op.get("store_old_index", False))
         finally:
             t.create_continuous_element_index = orig
             op["order"] = seen
     elif k == "fuse_junctions":
-        t.fuse_junctions(net, op["j1"], list(op["j2"]))
+        t.fuse_junctions(net, op["j1"], list(op["j2"]), drop=op.get("drop", True))
     elif k == "select_subnet":
-        return t.select_subnet(net, list(op["junctions"]))
+        return t.select_subnet(net, list(op["junctions"]), include_results=op.get("include_results", False),
+                               keep_everything_else=op.get("keep_everything_else", False),
+                               remove_internals=op.get("remove_internals", True),
+                               remove_unused_components=op.get("remove_unused_components", False))
     elif k == "drop_junctions":
         t.drop_junctions(net, list(op["junctions"]), drop_elements=op["drop_elements"])
     elif k == "drop_elements_at_junctions":
@@ -248,21 +252,23 @@ def gen_op(rng, snap, weights=None):
         e = rng.choice(sorted(cand))
         return {"op": k, "element": e, "lookup": lookup(labels(snap, e))}
     if k == "create_continuous_junction_index":
-        return {"op": k, "start": rng.choice([0, 0, 1, 5])}
+        return {"op": k, "start": rng.choice([0, 0, 1, 5]), "store_old_index": rng.random() < 0.3}
     if k == "create_continuous_element_index":
         cand = [t for t in snap if snap[t] and not t.startswith("res_") and not t.endswith("_geodata")]
-        return {"op": k, "element": rng.choice(sorted(cand)), "start": rng.choice([0, 0, 3])}
+        return {"op": k, "element": rng.choice(sorted(cand)), "start": rng.choice([0, 0, 3]), "store_old_index": rng.random() < 0.3}
     if k == "create_continuous_elements_index":
-        return {"op": k, "start": rng.choice([0, 0, 1])}
+        return {"op": k, "start": rng.choice([0, 0, 1]), "store_old_index": rng.random() < 0.3}
     if k == "fuse_junctions":
         j1 = rng.choice(js)
         j2 = rng.sample([j for j in js if j != j1], rng.choice([1, 1, 2]))
         if rng.random() < 0.2:
             j2 = j2 + [j1]
-        return {"op": k, "j1": j1, "j2": j2}
+        return {"op": k, "j1": j1, "j2": j2, "drop": rng.random() < 0.8}
     if k == "select_subnet":
         n = rng.randint(1, max(1, len(js) - 1))
-        return {"op": k, "junctions": rng.sample(js, n)}
+        return {"op": k, "junctions": rng.sample(js, n), "include_results": rng.random() < 0.35,
+                "keep_everything_else": rng.random() < 0.35, "remove_internals": rng.random() < 0.7,
+                "remove_unused_components": rng.random() < 0.4}
     if k == "drop_junctions":
         return {"op": k, "junctions": rng.sample(js, rng.choice([1, 1, 2])), "drop_elements": rng.random() < 0.8}
     if k == "drop_elements_at_junctions":
@@ -334,15 +340,17 @@ def expected(op, before):
         j2 = set(op["j2"]) - {op["j1"]}
         for t in snap:
             snap[t] = [(l, [(c, kd, op["j1"] if kd == "KJ" and v in j2 else v) for c, kd, v in cells]) for l, cells in snap[t]]
-        drop_rows(lambda t, l, cells: t == "junction" and l in j2)
+        if op.get("drop", True):
+            drop_rows(lambda t, l, cells: t == "junction" and l in j2)
     elif k == "select_subnet":
         js = set(op["junctions"])
         drop_rows(lambda t, l, cells: (l not in js) if t == "junction" else
                   not all(v in js for _, kd, v in cells if kd == "KJ"))
         cascade_pipe_refs()
-        for t in snap:
-            if t.startswith("res_"):
-                snap[t] = []
+        if not op.get("include_results", False):
+            for t in snap:
+                if t.startswith("res_"):
+                    snap[t] = []
     elif k == "drop_junctions":
         js = set(op["junctions"])
         if op["drop_elements"]:
@@ -422,3 +430,64 @@ def dangling(snap):
 
 def duplicate_labels(snap):
     return [(t, l) for t, rows in snap.items() for l in {x for x, _ in rows} if [x for x, _ in rows].count(l) > 1]
+
+
+def modelled(op):
+    """operations / option combinations that coq/C17/Model.v covers (the others are judged by the Python oracle only)"""
+    k = op["op"]
+    if k == "fuse_junctions":
+        return op.get("drop", True)
+    if k == "select_subnet":
+        return not op.get("include_results", False)
+    return True
+
+
+# --------------------------------------------------------------------------- everything else a net carries
+def meta_state(net):
+    """what no restructuring call may touch: component list, fluid (identity and contents), std types, user options,
+    name, and every user table that is not an element / geodata / result table"""
+    import json
+    import pandas as pd
+    from harness.drive import _canon, snapshot_tables
+    fluid = net.get("fluid", None) if hasattr(net, "get") else None
+    fl = None
+    if fluid is not None:
+        props = {}
+        for key, prop in sorted(getattr(fluid, "all_properties", {}).items()):
+            props[key] = (type(prop).__name__, {a: _canon(v) for a, v in sorted(vars(prop).items())
+                                                 if isinstance(v, (int, float, str, bool, list, tuple, np.ndarray))})
+        fl = (fluid.name, bool(fluid.is_gas), props)
+    elems = set(element_tables(net))
+    other = {t: v for t, v in snapshot_tables(net).items()
+             if t not in elems and not t.endswith("_geodata")}
+    return {"component_list": [c.__name__ for c in net.component_list],
+            "fluid": json.dumps(fl, sort_keys=True, default=str), "fluid_id": id(fluid),
+            "std_types": json.dumps(net.get("std_types", {}), sort_keys=True, default=str),
+            "user_pf_options": json.dumps(net.get("user_pf_options", {}), sort_keys=True, default=str),
+            "name": repr(net.get("name", None)), "other_tables": json.dumps(other, sort_keys=True, default=str)}
+
+
+def full_state(net):
+    """bit-exact state of a net that a call must leave alone completely (source net of select_subnet)"""
+    from harness.drive import snapshot_tables
+    import pandas as pd
+    st = meta_state(net)
+    st["tables"] = snapshot_tables(net)
+    st["results"] = {t: (net[t].index.tolist(), [str(c) for c in net[t].columns],
+                         [[None if (isinstance(x, float) and x != x) else x for x in r] for r in net[t].values.tolist()])
+                     for t in net.keys() if t.startswith("res_") and isinstance(net[t], pd.DataFrame)}
+    st["keys"] = sorted(k for k in net.keys() if not k.startswith("_"))
+    return st
+
+
+def state_diff(a, b):
+    return [k for k in sorted(set(a) | set(b)) if a.get(k) != b.get(k)]
+
+
+def shared_objects(src, new):
+    """mutable parts of the source net that the returned net still references"""
+    out = []
+    for k in ("component_list", "fluid", "std_types", "user_pf_options"):
+        if k in src and k in new and src[k] is new[k] and src[k] is not None and not isinstance(src[k], (str, int, float)):
+            out.append(k)
+    return out
